@@ -35,11 +35,16 @@ func (db *DB) NewBatch(options BatchOptions) *Batch {
 		options:   options,
 		committed: false,
 	}
-	node, err := snowflake.NewNode(1)
-	if err != nil {
-		panic(fmt.Sprintf("snowflake.NewNode(1) failed: %v", err))
+	// 每个 DB 实例仅创建一个 ID 生成器: 每次新建生成器时其序列号都从 0 开始, 同一毫秒内创建的批处理会得到相同的 ID,
+	// 提交失败的批处理残留在日志中的记录会被下一个同 ID 批处理的完成标识一并生效
+	if db.batchIDNode == nil {
+		node, err := snowflake.NewNode(1)
+		if err != nil {
+			panic(fmt.Sprintf("snowflake.NewNode(1) failed: %v", err))
+		}
+		db.batchIDNode = node
 	}
-	batch.batchID = node.Generate()
+	batch.batchID = db.batchIDNode.Generate()
 	return batch
 }
 
